@@ -395,7 +395,17 @@ func handleSMOVE(params internal.HandlerFuncParams) ([]byte, error) {
 
 	destinationSet, ok := sets[destination].(*Set)
 	if !ok {
-		return nil, errors.New("destination is not a set")
+		if keyExists[destination] {
+			return nil, errors.New("destination is not a set")
+		}
+		// A destination that does not exist is an empty set: it is created when the member moves.
+		if !sourceSet.Contains(member) {
+			return []byte(":0\r\n"), nil
+		}
+		destinationSet = NewSet([]string{})
+		if err = params.SetValues(params.Context, map[string]interface{}{destination: destinationSet}); err != nil {
+			return nil, err
+		}
 	}
 
 	res := sourceSet.Move(destinationSet, member)
